@@ -218,6 +218,10 @@ func (fr *Frame) instr(st *State, in ssa.Instruction) bool {
 
 func (fr *Frame) panicAt(st *State, in *ssa.Panic) {
 	x := fr.x
+	if rf := fr.recoveringFrame(st); rf != nil {
+		rf.panicStates = append(rf.panicStates, st.clone())
+		return
+	}
 	// a declared "panics if" clause makes the panic acceptable under that condition (top frame only)
 	goal := "false"
 	if fr.top && fr.ct != nil && len(fr.ct.PanicsIf) > 0 {
